@@ -54,11 +54,14 @@ DRIVER = "drv_c19"
 PROPS = ["PartituraModel.Props.C19", "PartituraModel.Props.C19Write", "PartituraModel.Props.C19MeiWrite",
          "PartituraModel.Props.C19Dispatch", "PartituraModel.Props.C19Sections", "PartituraModel.Props.C19Divs",
          "PartituraModel.Props.C19Endings", "PartituraModel.Props.C19Tables", "PartituraModel.Props.C19TieOrder",
-         "PartituraModel.Props.C19KernPaths"]
+         "PartituraModel.Props.C19KernPaths", "PartituraModel.Props.C19KernDur"]
 TRUSTED = [
     "lxml tokenisation of the MEI text into open/close events (the harness does nothing else to the document), also of the "
     "text save_mei writes; numpy loadtxt/genfromtxt splitting of kern rows into cells, np.savetxt joining them",
-    "binary64 arithmetic inside load_kern (reciprocal durations, dot_function): model exact, compared exactly",
+    "binary64 arithmetic inside load_kern (reciprocal durations, dot_function, the scaling loop that turns the reciprocals into "
+    "whole numbers before the lcm): Model/KernDur.lean is the same arithmetic over exact rationals (proved equal to the semantics, "
+    "Props/C19KernDur), compared exactly token by token (stream kdur: start positions in divisions) - that the float error of every "
+    "generated value is absorbed by int(round(..)) / np.round is observed, not proved",
     "that the importers implement the modelled semantics is established by the differential run only",
     "the order in which Part.iter_all yields the objects of a time point / a measure (the writers' input is extracted "
     "with the same calls; the container itself is C01's subject)",
@@ -117,6 +120,11 @@ PARTIAL = [
 ]
 RULE = ("abstract scores (1-3 staves x 1-2 voices x 1-4 measures; 13 meters incl. 5/8, 7/8, 4/2; pickups; meter and key changes; "
         "plain / dotted / double-dotted / tuplet (3:2, 5:4, 6:4, 7:4, dotted-in-tuplet) values down to 32nds, breves and longs; "
+        "in 30 % of the kern and 15 % of the MEI documents one or two odd tuplets n:m (3:2 ... 15:8, 17:16 ... 31:16) whose members "
+        "carry 0-3 dots (reciprocals like 20. 28.. 11.. 22%3.: no binary fractions); kind kdur: one kern spine of 5-14 freely drawn "
+        "values (1-3 reciprocals 3 ... 63 / a%b that are no powers of two, their doubles, binary values, 0-3 dots each; notes, "
+        "chords, rests, barlines anywhere) - the start of every token in divisions against the exact mirror of the importer's "
+        "arithmetic and against the sum of the values written before it; "
         "chords, rests, grace notes, ties over barlines also between chords, silent measures) written by this module's own writers as kern "
         "(main spines or *^ / *v sub-spines also in mid-measure, one *part / *I group, separate parts or mixed *part tags, *staff, *clef, "
         "*k[], *M, *MM, barline styles, a%b reciprocals, comments, decorations, a **dynam / **text spine left or right of the kern spines; "
@@ -151,7 +159,10 @@ LEVEL_TEXT = ("Lean theorems over all inputs: the denotational semantics of kern
               "these make every onset, duration and measure boundary of every denoted part whole (no side condition); a note stands on its "
               "own @staff, else its chord's, else the enclosing staff, and does not pass its @staff on; the kern importer's sub-spine arithmetic (voices + splits - joins) counts, row after row of any accepted document "
               "of clean rows, exactly the columns the semantics gives the leftmost spine, any number of splits and joins of any length "
-              "per row; export_import for both writers - "
+              "per row; the kern importer's duration arithmetic as written (add_durations, dot_function, int(round(4 / value * divs)), "
+              "the running position) is the semantics' value for every reciprocal n or a%b, any number of dots, any divisions that "
+              "represent the values exactly (every multiple of the lcm of their denominators), any token list - a floor would do in exact "
+              "arithmetic, so a lost tick is float error only; export_import for both writers - "
               "for every Exportable part (explicit decidable predicate) the written document denotes every note with its onset, "
               "duration, spelling and staff, proved against the same semantics the importers are compared with; load_score picks "
               "the documented reader for every supported extension in any case and rejects all others; the MEI semantics collects every "
@@ -3084,6 +3095,9 @@ def cases(rng, tier):
             if r.random() < 0.3:
                 cross_staff(asc, opt, r, p=0.5)
             yield {"k": "mei", "asc": asc, "opt": opt, "seed": seed, "fine": fk, "via": "load_mei"}
+        if i % 2 == 1:
+            seed = rng.getrandbits(48)
+            yield {"k": "kdur", "toks": gen_kdur(random.Random(seed)), "seed": seed}
         if i % 4 == 1:
             seed = rng.getrandbits(48)
             r = random.Random(seed)
@@ -3130,6 +3144,8 @@ def evaluate(d):
         return eval_meirej(d)
     if k == "kern3":
         return eval_kern3(d)
+    if k == "kdur":
+        return eval_kdur(d)
     if k == "fixture":
         return eval_fixture(d)
     if k == "dispatch":
@@ -3190,6 +3206,123 @@ def eval_kern(d):
         oracle_compare(exp, infos, ev.oracle)
     pbv_stream(ev, text)
     ev.key = "kern:" + text if infos and any(i["notes"] for i in infos) else None
+    return ev
+
+
+# ============================================================================ kern duration arithmetic (one spine, free values)
+def gen_kdur(rng):
+    """one spine of 5-14 tokens whose rhythm values are drawn freely: 1-3 reciprocals that are no powers of two (3 ... 63 or
+    a%b), their multiples by 2 and 4, binary values, each with 0-3 dots; notes, chords and rests; barlines anywhere (a kern
+    measure starts at the encoded barline, whatever the meter).  [(recip string, dots, kind)] with kind n / c / r / bar"""
+    odd = []
+    for _ in range(rng.choice([1, 1, 2, 3])):
+        if rng.random() < 0.2:
+            a = rng.choice([3, 5, 7, 9, 11, 13, 15])
+            odd.append("%d%%%d" % (a, rng.choice([b for b in (2, 4, 8) if b < 2 * a])))
+        else:
+            n = rng.choice([x for x in range(3, 64) if x & (x - 1)])
+            odd.append("%d" % (n * rng.choice([1, 1, 2, 4]) if n < 32 else n))
+    toks = [("", 0, "bar")]
+    for _ in range(rng.randint(5, 14)):
+        rc = rng.choice(odd) if rng.random() < 0.7 else rng.choice(["1", "2", "4", "8", "16", "32"])
+        toks.append((rc, rng.choice([0, 0, 1, 1, 1, 2, 2, 3]), rng.choice("nnnncr")))
+        if rng.random() < 0.15:
+            toks.append(("", 0, "bar"))
+    return toks
+
+
+def kdur_value(rc, dots):
+    if "%" in rc:
+        a, b = rc.split("%")
+        base = F(4 * int(b), int(a))
+    else:
+        base = F(4, int(rc))
+    return base * (2 - F(1, 2 ** dots))
+
+
+def eval_kdur(d):
+    """the importer's position arithmetic token by token: the loaded start positions (in divisions, exact integers) against
+    Model/KernDur.lean (dot_function / int(round(..)) over exact rationals), the whole load against the kern semantics, and
+    the oracle: every token stands at the sum of the values written before it and lasts its own value"""
+    toks = d["toks"]
+    lines = ["**kern", "*clefG2", "*M4/4"]
+    bar = 1
+    steps = "cdefgab"
+    exp, pos, bars, k = [], F(0), [], 0
+    for (rc, dots, kind) in toks:
+        if kind == "bar":
+            lines.append("=%d" % bar)
+            bar += 1
+            bars.append(pos)
+            continue
+        w = rc + "." * dots
+        v = kdur_value(rc, dots)
+        if kind == "r":
+            lines.append(w + "r")
+            exp.append((pos, v, "r", 1))
+        elif kind == "c":
+            lines.append("%s%s %s%s" % (w, steps[k % 7], w, steps[(k + 2) % 7] * 2))
+            exp.append((pos, v, "n", 2))
+        else:
+            lines.append(w + steps[k % 7])
+            exp.append((pos, v, "n", 1))
+        k += 1
+        pos += v
+    lines += ["==", "*-"]
+    bars.append(pos)
+    text = "\n".join(lines) + "\n"
+    ev = Eval(info={"text": text})
+    data = [(rc, dots) for (rc, dots, kind) in toks if kind != "bar"]
+    try:
+        score = load_text(text, ".krn", loader="kern")
+        infos = extract_parts(score)
+        part = score.parts[0]
+        import partitura.score as S
+        divs = int(part._quarter_durations[0])
+        objs = sorted(part.iter_all(S.GenericNote, include_subclasses=True), key=lambda n: (n.start.t, n.end.t))
+        err = None
+    except Exception as e:
+        infos, err = None, e
+    for what in ("notes", "meas"):
+        ev.requests.append(kern_request(what, text))
+    if err is not None:
+        ev.impl += ["err"] * 2
+        ev.oracle.append("load: load_kern raised %s: %s" % (type(err).__name__, str(err)[:200]))
+        ev.key = None
+        return ev
+    tx = impl_texts(infos, "kern")
+    ev.impl += [tx["notes"], tx["meas"]]
+    got = [(int(o.start.t), int(o.end.t)) for o in objs]
+    # one entry per token (the notes of a chord share start and end)
+    per_tok, i = [], 0
+    for (on, v, kind, cnt) in exp:
+        grp = got[i:i + cnt]
+        i += cnt
+        per_tok.append(grp)
+    ok_shape = i == len(got) and all(len(set(g)) == 1 for g in per_tok if g) and all(per_tok)
+    if not ok_shape:
+        ev.oracle.append("kdur: %d tokens denote %d notes and rests, %d loaded (or the notes of a chord differ)"
+                         % (len(exp), sum(e[3] for e in exp), len(got)))
+    else:
+        starts = [g[0][0] for g in per_tok]
+        end = per_tok[-1][0][1]
+        ev.requests.append("kdur %d %d %s" % (divs, len(data), " ".join("%s %d" % (W.s(rc), dots) for rc, dots in data)))
+        ev.impl.append(W.f_tuple(W.f_list(W.f_int, starts), W.f_int(end)))
+        bad = []
+        for (on, v, kind, cnt), g in zip(exp, per_tok):
+            s0, e0 = g[0]
+            if F(s0, divs) != on or F(e0 - s0, divs) != v:
+                bad.append("token at %s lasting %s loaded at %s lasting %s" % (on, v, F(s0, divs), F(e0 - s0, divs)))
+        if bad:
+            ev.oracle.append("kdur (divisions %d): %s%s" % (divs, "; ".join(bad[:3]), " ..." if len(bad) > 3 else ""))
+        inexact = [str(v) for (on, v, kind, cnt) in exp if (v * divs).denominator != 1]
+        if inexact:
+            ev.oracle.append("divisions: %d divisions per quarter do not represent the written values %s exactly" % (divs, inexact[:3]))
+        ms = sorted(set(m[2] for m in infos[0]["measures"]))
+        want = sorted(set(bars))
+        if ms != want:
+            ev.oracle.append("measures: start at %s, barlines encoded at %s" % ([str(x) for x in ms], [str(x) for x in want]))
+    ev.key = "kdur:" + text
     return ev
 
 
@@ -3388,6 +3521,17 @@ def finding_key(d, f):
 def shrink(d):
     import copy
 
+    if d["k"] == "kdur":
+        toks = d["toks"]
+        for i in range(len(toks)):
+            if len(toks) > 1:
+                yield dict(d, toks=toks[:i] + toks[i + 1:])
+        for i, (rc, dots, kind) in enumerate(toks):
+            if dots:
+                yield dict(d, toks=toks[:i] + [[rc, dots - 1, kind]] + toks[i + 1:])
+            if kind in ("c", "r"):
+                yield dict(d, toks=toks[:i] + [[rc, dots, "n"]] + toks[i + 1:])
+        return
     if d["k"] not in ("kern", "mei", "xkern", "xmei", "kern3", "meirej"):
         return
     asc = d["asc"]
@@ -3567,6 +3711,8 @@ def distribution(descs, results):
             feats["grace_docs"] += 1 if any(e["t"] == "g" for e in evs) else 0
             feats["dots2_docs"] += 1 if any(e.get("d", 0) >= 2 for e in evs) else 0
             feats["breve_docs"] += 1 if any(e["v"] <= 0 for e in evs) else 0
+            feats["dotted_odd_tuplet_docs_%s" % d["k"]] += 1 if any(
+                e.get("d") and e.get("tup") and e["tup"][0] not in (3, 6, 12) for e in evs) else 0
             two = any(len(st["voices"]) == 2 for st in a["staves"])
             if d["k"] == "kern":
                 feats["kern_subspine_docs"] += 1 if (d["lay"]["split"] and two) else 0
